@@ -1,5 +1,6 @@
 import LinOp.Core.Parse
 import LinOp.C09.Model
+import LinOp.C09.Multi
 import LinOp.Generated.C09Consts
 /-!
 Line-protocol driver for the C09 model, run on IEEE binary64 (`Float`, the format of `torch.float64`).
@@ -8,8 +9,13 @@ Floats travel as their 64 bit patterns in decimal (exact in both directions).
 input:
   `lz n maxIter tol A v`       tol: bit pattern or `d` (generated default); A: `r1c1,r1c2;r2c1,…`; v: comma list
   `post n m Q evals evecs`     Q: n×m, evals: m, evecs: m×m  (eigendecomposition supplied by the caller = `eigh` parameter)
+  `lzm n maxIter tol C mats amap vecs`   the COUPLED model (`lanczosMulti`): `C` columns in one loop; mats: matrices joined
+                               by `|`; amap: for every column the index of its matrix (batch member); vecs: start vectors joined by `|`
+  `mind m diag`                `minDiag` of a matrix with that diagonal (what `mins` of the jitter statements is)
 output:
   `err=<ok|index> count=.. passes=.. q=<n×count> t=<count×count>`
+  `err=<ok|index> count=.. passes=.. q=<Q_0>|<Q_1>|… t=<T_0>|… sup=<C rows: the buffer entries t[j][j+1], j < min(count, num_iter-1),
+                               i.e. all the beta written, the one of the breaking iteration included>`
   `evals=<m> root=<n×m> inv=<n×m>`
 -/
 open LinOp LinOp.C09 LinOp.Parse
@@ -50,6 +56,33 @@ def runLine (line : String) : String :=
       | .error _ => "err=index count=0 passes=0 q=- t=-"
       | .ok o => s!"err=ok count={o.count} passes={o.passes} q={showMatF o.Q} t={showMatF o.T}"
     | _, _, _, _, _ => "bad-args"
+  | ["lzm", n, mi, tol, c, mats, amap, vecs] =>
+    match n.toNat?, mi.toNat?, (if tol = "d" then some (ratToFloat Generated.C09.tol) else fbits? tol), c.toNat?,
+        (mats.splitOn "|").mapM fmat?, parseNats? amap, (vecs.splitOn "|").mapM fvec? with
+    | some n, some mi, some tol, some C, some mats, some amap, some vecs =>
+      let mats := mats.toArray
+      let amap := amap.toArray
+      let vecs := vecs.toArray
+      let amuls : Fin C → Vec Float n → Vec Float n := fun c => matVec n (mats[amap[c.1]!]!)
+      let vs : Vector (Vec Float n) C := Vector.ofFn fun c => vecOf n (vecs[c.1]!)
+      match lanczosMulti floatOps (params tol) amuls mi vs with
+      | .error _ => "err=index count=0 passes=0 q=- t=- sup=-"
+      | .ok o =>
+        let cols := List.finRange C
+        let qs := "|".intercalate (cols.map fun c => showMatF (o.col c).Q)
+        let ts := "|".intercalate (cols.map fun c => showMatF (o.col c).T)
+        let numIter := min mi n
+        let L := min o.count (numIter - 1)
+        let sup : Mat Float C L := fun c j => ((o.cols[c].t.get j.1).get (j.1 + 1))
+        let passes := match cols with | [] => 0 | c :: _ => o.cols[c].passes
+        s!"err=ok count={o.count} passes={passes} q={qs} t={ts} sup={showMatF sup}"
+    | _, _, _, _, _, _, _ => "bad-args"
+  | ["mind", m, d] =>
+    match m.toNat?, fvec? d with
+    | some m, some d =>
+      let T : Mat Float m m := fun i j => if i = j then d[i.1]! else 0
+      s!"min={showF (minDiag (fun a b => decide (a < b)) T 0)}"
+    | _, _ => "bad-args"
   | ["post", n, m, Q, evals, evecs] =>
     match n.toNat?, m.toNat?, fmat? Q, fvec? evals, fmat? evecs with
     | some n, some m, some Q, some ev, some V =>
